@@ -110,6 +110,27 @@ static void build(vf::Plan &plan, const vf::Opts &o)
                [](uint64_t i) { return strf("value %X", i < 32 ? (1u << i) : (0xFFFFFFFFu >> (i - 32))); });
     add_position_sweep(plan, T ? 300 : 70, all);
     add_position_sweep(plan, T ? 80 : 40, all, 7);
+    // ---- fill(n, byte): the result is a string like any other - bytes below 0x80 give n copies, a byte >= 0x80 repeated is not UTF-8
+    // and is rejected under check_validity (the default here)
+    plan.stage("ST::string::fill(n, byte) for every byte value x n in {0, 1, 2, 15, 16, 40}", 256 * 6,
+               [](uint64_t i, Ctx &c) {
+                   static const size_t NS[6] = {0, 1, 2, 15, 16, 40};
+                   unsigned b = (unsigned)vf::take(i, 256);
+                   size_t n = NS[i];
+                   std::string got;
+                   vf::Outcome o = vf::guard([&] {
+                       ST::string r = ST::string::fill(n, (char)b);
+                       got.assign(r.c_str(), r.size());
+                   });
+                   VF_COUNT("validated");
+                   bool must_throw = b >= 0x80 && n > 0;
+                   if (must_throw && o.kind != vf::EX_UNICODE)
+                       c.fail("c02:fill(n, byte>=0x80):check_validity:accepted-invalid", strf("fill(%zu, 0x%02X) %s", n, b, o.ok() ? "returned a string that is not UTF-8" : o.str().c_str()));
+                   else if (!must_throw && (!o.ok() || got != std::string(n, (char)b)))
+                       c.fail("c02:fill(n, ascii):wrong-result", strf("fill(%zu, 0x%02X): %s", n, b, o.ok() ? vf::hex_str(got, 24).c_str() : o.str().c_str()));
+                   if (n) c.nontrivial();
+               },
+               [](uint64_t i) { return strf("fill case %llu", (unsigned long long)i); });
     // ---- strings that legitimately hold malformed bytes (through from_validated / assume_valid, or a left()/substr() cut inside
     // a character): operations on them validate their *argument*, in its mode, and nothing else - not the string itself, not the
     // concatenation, and not "the same bytes as before"
